@@ -25,6 +25,17 @@ def load_contracts():
                 raise
 
 
+    # function-level tags implied by clause tags (kept current by tools/audit_tags.py --write)
+    import json
+    fp = os.path.join(os.path.dirname(os.path.dirname(os.path.abspath(__file__))), "contracts", "extra_tags.json")
+    if os.path.exists(fp):
+        for q, ts in json.load(open(fp)).items():
+            if q in REGISTRY and hasattr(REGISTRY[q], "tags"):
+                for t in ts:
+                    if t not in REGISTRY[q].tags:
+                        REGISTRY[q].tags.append(t)
+
+
 def norm(name):
     """obligation name without line numbers (stable under unrelated edits)"""
     return re.sub(r"@\d+", "", name)
@@ -52,9 +63,17 @@ def _task(args):
             if k % nchunks != chunk:
                 continue
             for o in p.obls:
-                v = solve.discharge(p, o, timeout_ms)
-                if v.status != "discharged":
-                    v = retry_without_witness(ex, p, o, v, timeout_ms)
+                wf = witness_for(o)
+                if wf is not None:
+                    # an obligation an open finding is recorded for: first under the negated witness
+                    # quick outright attempt (it passes once the defect is repaired), then under the negated witness
+                    v = solve.discharge(p, o, max(2000, timeout_ms // 6), use_cvc5=False)
+                    if v.status != "discharged":
+                        v = retry_without_witness(ex, p, o, v, timeout_ms)
+                        if not v.status.startswith("known:"):
+                            v = solve.discharge(p, o, timeout_ms)
+                else:
+                    v = solve.discharge(p, o, timeout_ms)
                 r = {"name": o.name, "norm": norm(o.name), "path": k, "status": v.status, "backend": v.backend,
                      "secs": round(v.secs, 3), "tags": o.tags, "kind": o.kind, "detail": v.detail,
                      "decisions": p.labels}
@@ -79,6 +98,14 @@ def open_findings():
         fp = os.path.join(os.path.dirname(os.path.dirname(os.path.abspath(__file__))), "known_findings.json")
         _FINDINGS = [f for f in json.load(open(fp))["findings"]] if os.path.exists(fp) else []
     return [f for f in _FINDINGS if f.get("status") == "open"]
+
+
+def witness_for(o):
+    nm = norm(o.name)
+    for f in open_findings():
+        if f.get("witness") and any(re.search(pat, nm) for pat in f["obligations"]):
+            return f
+    return None
 
 
 def retry_without_witness(ex, p, o, v, timeout_ms):
@@ -119,5 +146,7 @@ def run_functions(quals, timeout_ms=10000, jobs=None, split=None, want_smt=True)
     if jobs == 1 or len(tasks) == 1:
         return [_task(t) for t in tasks]
     ctx = mp.get_context("fork")
-    with ctx.Pool(min(jobs, len(tasks))) as pool:
+    # one fresh process per task: verdicts must not depend on what the worker happened to verify before
+    # (z3 is sensitive to AST ids / symbol numbering accumulated in its context)
+    with ctx.Pool(min(jobs, len(tasks)), maxtasksperchild=1) as pool:
         return pool.map(_task, tasks, chunksize=1)
